@@ -1946,6 +1946,14 @@ func (c *Ctx) formula(v ssa.Value) *Formula {
 		}
 		return Atom(c.Term(v)) // not expanded here: the call is its own atom
 	case *ssa.Extract:
+		// `i, found := indexOf(list, x)`: found ⇔ 0 ≤ i for a search that returns (index, true) from
+		// inside its loop and (negative constant, false) after it
+		if call, ok := x.Tuple.(*ssa.Call); ok && x.Index == 1 {
+			if h := call.Common().StaticCallee(); h != nil && tupleIndexSearch(c.p, h) >= 0 {
+				idx := &Term{Kind: "extract", Name: "0", Args: []*Term{c.Term(call)}, Typ: types.Typ[types.Int]}
+				return Not(cmpFormula(token.LSS, idx, zeroTerm(types.Typ[types.Int])))
+			}
+		}
 		if call, ok := x.Tuple.(*ssa.Call); ok && isBool(x.Type()) {
 			if f := call.Common().StaticCallee(); f != nil && c.inlinable(f) && !c.p.noExpand[f] {
 				args := make([]*Term, len(call.Common().Args))
